@@ -2159,6 +2159,248 @@ theorem stored_good {C : Cfg} {st : St} (hI : MInv C st) {g : Genesis} (hg : st.
 
 end MscP
 
+/-! ## polygon bor (one fixed span): invariant, fork choice, what acceptance establishes -/
+namespace BorP
+open Poly.Model.LCPosa.Bor
+
+theorem succession_lt {n p s : Nat} (hp : p < n) (hs : s < n) : succession n p s < n := by
+  unfold succession
+  split <;> omega
+
+theorem succession_mod {n p s : Nat} (hp : p < n) (hs : s < n) : succession n p s = (s + n - p) % n := by
+  unfold succession
+  split
+  · rw [Nat.mod_eq_of_lt (by omega)]
+  · have : s + n - p = (s - p) + n := by omega
+    rw [this, Nat.add_mod_right, Nat.mod_eq_of_lt (by omega)]
+
+theorem succession_zero_iff {n p s : Nat} (hp : p < n) (hs : s < n) : succession n p s = 0 ↔ s = p := by
+  unfold succession
+  split <;> omega
+
+theorem indexOf_lt_of_mem (a : Addr) : ∀ (l : List Addr), a ∈ l → Msc.indexOf a l < l.length ∧ l[Msc.indexOf a l]? = some a := by
+  intro l
+  induction l with
+  | nil => intro h; simp at h
+  | cons b bs ih =>
+    intro h
+    simp only [Msc.indexOf]
+    by_cases hb : b = a
+    · subst hb; simp
+    · have hbb : (b == a) = false := by simpa using hb
+      simp only [hbb, Bool.false_eq_true, if_false]
+      have hm : a ∈ bs := by
+        rcases List.mem_cons.mp h with h | h
+        · exact absurd h.symm hb
+        · exact h
+      obtain ⟨h1, h2⟩ := ih hm
+      exact ⟨by simp; omega, by simpa using h2⟩
+
+/-- What an accepting `verifyHeader` of the reduced bor model established. -/
+theorem verifyHeader_ok {C : Cfg} {vals : List Addr} {prop : Nat} {p : Stored} {h : Hdr}
+    (hv : Bor.verifyHeader C vals prop p h = .ok ()) :
+    h.extra.length = extraVanity + extraSeal ∧ h.mixZero = true ∧ h.uncleOk = true ∧ p.hdr.number + 1 = h.number ∧
+    p.hdr.time + C.period ≤ h.time ∧
+    ∃ signer, h.signer = some signer ∧ signer ∈ vals ∧ prop < vals.length ∧
+      p.hdr.time + (C.period + succession vals.length prop (Msc.indexOf signer vals) * C.backup) ≤ h.time ∧
+      h.difficulty = vals.length - succession vals.length prop (Msc.indexOf signer vals) := by
+  unfold Bor.verifyHeader at hv
+  by_cases c1 : (h.extra.length != extraVanity + extraSeal) = true
+  · rw [if_pos c1] at hv; cases hv
+  rw [if_neg c1] at hv
+  by_cases c2 : (!h.mixZero) = true
+  · rw [if_pos c2] at hv; cases hv
+  rw [if_neg c2] at hv
+  by_cases c3 : (!h.uncleOk) = true
+  · rw [if_pos c3] at hv; cases hv
+  rw [if_neg c3] at hv
+  by_cases c4 : (p.hdr.number + 1 != h.number) = true
+  · rw [if_pos c4] at hv; cases hv
+  rw [if_neg c4] at hv
+  by_cases c5 : p.hdr.time + C.period > h.time
+  · rw [if_pos c5] at hv; cases hv
+  rw [if_neg c5] at hv
+  by_cases c6 : h.number = 0
+  · rw [if_pos c6] at hv; cases hv
+  rw [if_neg c6] at hv
+  cases hsig : h.signer with
+  | none => rw [hsig] at hv; cases hv
+  | some signer =>
+  rw [hsig] at hv
+  simp only at hv
+  by_cases d1 : (!vals.contains signer) = true
+  · rw [if_pos d1] at hv; cases hv
+  rw [if_neg d1] at hv
+  by_cases d2 : prop ≥ vals.length
+  · rw [if_pos d2] at hv; cases hv
+  rw [if_neg d2] at hv
+  by_cases d3 : h.time < p.hdr.time + (C.period + succession vals.length prop (Msc.indexOf signer vals) * C.backup)
+  · rw [if_pos d3] at hv; cases hv
+  rw [if_neg d3] at hv
+  by_cases d4 : (h.difficulty != vals.length - succession vals.length prop (Msc.indexOf signer vals)) = true
+  · rw [if_pos d4] at hv; cases hv
+  simp at c1 c2 c3 c4 d1 d4
+  exact ⟨c1, c2, c3, c4, by omega, signer, rfl, d1, by omega, by omega, d4⟩
+
+/-- the chain invariant of bor records only the parent link -/
+structure BGood (s : Stored) (l : List Stored) : Prop where
+  link : Link s l
+
+instance : HasLink BGood := ⟨fun h => h.link⟩
+
+abbrev BChain (st : St) (g : Genesis) : Id → List Stored → Prop := GChainP BGood st g
+
+structure BInv (st : St) : Prop where
+  noGen : st.genesis = none → (∀ id, st.hdrs id = none) ∧ (∀ i, st.canon i = none)
+  gen : ∀ g, st.genesis = some g →
+    st.hdrs g.hdr.id = some (rootOf g) ∧ (∀ id s, st.hdrs id = some s → ∃ l, BChain st g id (s :: l)) ∧ CanonInv st g
+
+theorem syncHeader_cases (C : Cfg) (st : St) (h : Hdr) :
+    (∃ o, Bor.syncHeader C st h = (st, o) ∧ o ≠ .ok) ∨
+    ∃ p g st', st.hdrs h.id = none ∧ st.hdrs h.parent = some p ∧ st.genesis = some g ∧
+      Bor.verifyHeader C g.pv0.vals g.pv0.height p h = .ok () ∧
+      addHeader st h p ⟨0, [], some g.hdr.id⟩ = .ok st' ∧ Bor.syncHeader C st h = (st', .ok) := by
+  unfold Bor.syncHeader
+  cases h1 : st.hdrs h.id with
+  | some _ => left; exact ⟨.skipDup, by simp, by simp⟩
+  | none =>
+    simp only [Option.isSome_none, Bool.false_eq_true, if_false]
+    cases h2 : st.hdrs h.parent with
+    | none => left; exact ⟨_, rfl, by simp⟩
+    | some p =>
+      simp only
+      cases h4 : st.genesis with
+      | none => left; exact ⟨_, rfl, by simp⟩
+      | some g =>
+        simp only
+        cases h3 : Bor.verifyHeader C g.pv0.vals g.pv0.height p h with
+        | error e => left; exact ⟨_, rfl, by simp⟩
+        | ok u =>
+          simp only
+          cases h10 : addHeader st h p ⟨0, [], some g.hdr.id⟩ with
+          | error e => left; exact ⟨_, rfl, by simp⟩
+          | ok st' =>
+            right
+            refine ⟨p, g, st', ?_, ?_, ?_, ?_, ?_, ?_⟩ <;> first | rfl | trivial | assumption
+
+theorem syncHeader_inv {C : Cfg} {st : St} (hI : BInv st) (h : Hdr) : BInv (Bor.syncHeader C st h).1 := by
+  rcases syncHeader_cases C st h with ⟨o, hsame, _⟩ | ⟨p, g, st', h1, h2, h4, h3, h10, h11⟩
+  · rw [hsame]; exact hI
+  · rw [h11]
+    obtain ⟨hroot, hall, hCI⟩ := hI.gen g h4
+    obtain ⟨l, hc0⟩ := hall h.parent p h2
+    have hp : h.parent = p.hdr.id := hc0.head_id.1.symm
+    have hc : BChain st g p.hdr.id (p :: l) := by rw [← hp]; exact hc0
+    obtain ⟨_, _, _, hnum, _⟩ := verifyHeader_ok h3
+    obtain ⟨st'', ha1, ha2, ha3, ha4⟩ := addHeader_spec hCI ⟨0, [], some g.hdr.id⟩ h1 hc hp hnum
+    rw [h10] at ha1
+    injection ha1 with ha1
+    subst ha1
+    have hne : h.id ≠ g.hdr.id := by
+      intro he; rw [he, hroot] at h1; cases h1
+    have hext : ∀ id s, st.hdrs id = some s → st'.hdrs id = some s := by
+      intro id s hs
+      rw [ha3, upd_other]
+      · exact hs
+      · intro he; rw [he, h1] at hs; cases hs
+    constructor
+    · intro hn; rw [ha2, h4] at hn; cases hn
+    · intro g' hg'
+      rw [ha2, h4] at hg'
+      injection hg' with hg'
+      subst hg'
+      refine ⟨hext _ _ hroot, ?_, ha4⟩
+      intro id s hs
+      by_cases hid : id = h.id
+      · subst hid
+        rw [ha3, upd_same] at hs
+        injection hs with hs
+        subst hs
+        refine ⟨p :: l, .step h.id _ (p :: l) hne (by rw [ha3, upd_same]) rfl ?_ ⟨⟨p, l, rfl, hnum, rfl⟩⟩⟩
+        simp only
+        rw [hp]
+        exact hc.mono hext
+      · rw [ha3, upd_other _ _ _ _ hid] at hs
+        obtain ⟨l', hc'⟩ := hall id s hs
+        exact ⟨l', hc'.mono hext⟩
+
+theorem syncGenesis_inv {st : St} (hI : BInv st) (g : Hdr) (vals : List Addr) (prop : Nat) :
+    BInv (Bor.syncGenesis st g vals prop).1 := by
+  unfold Bor.syncGenesis
+  cases hgen : st.genesis with
+  | some _ => simpa using hI
+  | none =>
+    obtain ⟨hn1, hn2⟩ := hI.noGen hgen
+    simp only [Option.isSome_none, Bool.false_eq_true, if_false]
+    constructor
+    · intro hn; cases hn
+    · intro g' hg'
+      simp only at hg'
+      injection hg' with hg'
+      subst hg'
+      refine ⟨by simp [upd_same, rootOf], ?_, ?_⟩
+      · intro id s hs
+        simp only at hs
+        by_cases hid : id = g.id
+        · subst hid
+          rw [upd_same] at hs
+          injection hs with hs
+          subst hs
+          exact ⟨[], .root (by simp [upd_same, rootOf])⟩
+        · rw [upd_other _ _ _ _ hid, hn1] at hs
+          cases hs
+      · constructor
+        · refine ⟨⟨g, g.difficulty, none⟩, by simp [upd_same], by simp [upd_same], rfl, ?_⟩
+          intro id s hs
+          simp only at hs
+          by_cases hid : id = g.id
+          · subst hid
+            rw [upd_same] at hs
+            injection hs with hs
+            subst hs
+            exact Nat.le_refl _
+          · rw [upd_other _ _ _ _ hid, hn1] at hs
+            cases hs
+        · intro i hi
+          simp only at hi ⊢
+          rw [upd_other _ _ _ _ (by omega)]
+          exact hn2 i
+        · intro i hi
+          simp only at hi ⊢
+          rw [upd_other _ _ _ _ (by omega)]
+          exact hn2 i
+        · simp [upd_same]
+        · intro i h1 h2
+          simp only at h1 h2
+          omega
+
+theorem empty_inv : BInv St.empty :=
+  ⟨fun _ => ⟨fun _ => rfl, fun _ => rfl⟩, fun g hg => by simp [St.empty] at hg⟩
+
+theorem run_inv {C : Cfg} : ∀ (ops : List Bor.Op) {st : St}, BInv st → BInv (Bor.run C st ops) := by
+  intro ops
+  induction ops with
+  | nil => intro st hI; exact hI
+  | cons o os ih =>
+    intro st hI
+    apply ih
+    cases o with
+    | genesis g vals prop => exact syncGenesis_inv hI g vals prop
+    | hdr h => exact syncHeader_inv hI h
+
+theorem stored_link {st : St} (hI : BInv st) {g : Genesis} (hg : st.genesis = some g)
+    {id : Id} {s : Stored} (hs : st.hdrs id = some s) (hne : id ≠ g.hdr.id) :
+    ∃ p l, st.hdrs s.hdr.parent = some p ∧ p.hdr.number + 1 = s.hdr.number ∧ Chain st g s.hdr.parent (p :: l) ∧
+      s.td = sumDiff (s :: p :: l) := by
+  obtain ⟨_, hall, _⟩ := hI.gen g hg
+  obtain ⟨l0, hc⟩ := hall id s hs
+  obtain ⟨_, _, hcl, hgood⟩ := hc.inv_step hne
+  obtain ⟨p, rest, hl, hnum, _⟩ := hgood.link
+  subst hl
+  exact ⟨p, rest, Chain.head_stored hcl.toChain, hnum, hcl.toChain, hc.td_sum s _ rfl⟩
+
+end BorP
+
 /-! ## A concrete history (non-vacuity of the property statements) -/
 namespace Example
 
@@ -2195,6 +2437,14 @@ def m6 : Hdr := mhdr 6 3 11 b 2 106
 def mscOps : List Msc.Op :=
   [.genesis mroot, .hdr (mhdr 2 1 9 b 2 102), .hdr (mhdr 3 2 10 a 2 104), .hdr (mhdr 4 3 11 a 1 106),
    .hdr (mhdr 5 3 11 c 1 106)]
+
+/-- bor: trust root at number 64 -/
+def broot : Hdr :=
+  { id := 1, parent := 0, number := 64, coinbase := Msc.zeroAddr, signer := none, difficulty := 1,
+    extra := List.replicate 97 0, time := 100, gasLimit := 0, gasUsed := 0, mixZero := true, uncleOk := true, baseFee := none }
+def bhdr (id parent number : Nat) (signer : Addr) (difficulty time : Nat) : Hdr :=
+  { id := id, parent := parent, number := number, coinbase := Msc.zeroAddr, signer := some signer, difficulty := difficulty,
+    extra := List.replicate 97 0, time := time, gasLimit := 0, gasUsed := 0, mixZero := true, uncleOk := true, baseFee := none }
 
 end Example
 
